@@ -20,8 +20,8 @@ from props import C10 as TEN
 
 ID = 'C17'
 CASE_TIMEOUT = 120   # per-case wall-clock limit of the driver's hang detection (scripted drivers; thorough live runs are in extra_checks)
-COQ_TARGETS = ['theories/Props/C17.vo', 'theories/Exec/ModesCases.vo', 'theories/Exec/FdTableCases.vo']
-IMPORTS = ('From PM Require Import Lib.Bytes Lib.ZDict Exec.Threadless Exec.ThreadlessOld Exec.ThreadlessCases Exec.Modes Exec.ModesCases Exec.FdTable Exec.FdTableCases.\n'
+COQ_TARGETS = ['theories/Props/C17.vo', 'theories/Exec/ModesCases.vo', 'theories/Exec/FdTableCases.vo', 'theories/Exec/DispatchFacts.vo']
+IMPORTS = ('From PM Require Import Lib.Bytes Lib.ZDict Exec.Threadless Exec.ThreadlessOld Exec.ThreadlessCases Exec.Modes Exec.ModesCases Exec.FdTable Exec.FdTableCases Exec.Dispatch.\n'
            'From Coq Require Import ZArith.')
 CASE_TYPE = 'c17case'
 CHECK_FN = 'check_c17'
@@ -339,6 +339,144 @@ class MultiDriver:
             logging.disable(0)
 
 
+# ----------------------------------------------------------------------------- the dispatch protocol, real code, in-memory pipes
+class MemPipe:
+    """stands for one end pair of the multiprocessing pipe of a remote worker: records what the acceptor side writes
+    (send / send_handle) and serves it to the worker side (recv / recv_handle) in order, with the failure the real
+    pipe would produce when the reader asks for the wrong kind of message"""
+    def __init__(self):
+        self.q = []
+    def send(self, obj):
+        self.q.append(('obj', obj))
+    def fileno(self):
+        return 5
+    def recv(self):
+        if not self.q:
+            raise EOFError('empty pipe')
+        kind, v = self.q[0]
+        if kind != 'obj':
+            raise TypeError('recv(): next message is a passed descriptor, not a pickled object')
+        self.q.pop(0)
+        return v
+    def recv_handle(self):
+        if not self.q:
+            raise EOFError('empty pipe')
+        kind, v = self.q[0]
+        if kind != 'handle':
+            raise OSError(errno.EBADMSG, 'recv_handle(): next message carries no descriptor')
+        self.q.pop(0)
+        return v
+    def close(self):
+        pass
+
+
+class _Conn:
+    def __init__(self, fd):
+        self.fd = fd
+        self.closed = False
+    def fileno(self):
+        return -1 if self.closed else self.fd
+    def close(self):
+        self.closed = True
+
+
+def run_dispatch(case):
+    """REAL Acceptor._work (worker index, call of delegate_work_to_pool with its arguments), REAL delegate_work_to_pool,
+    REAL RemoteFdExecutor.receive_from_work_queue; only the pipe, send_handle/recv_handle and threading.Thread are stand-ins"""
+    import multiprocessing, types
+    from unittest import mock
+    from proxy.common.flag import FlagParser
+    from proxy.core.acceptor import Acceptor
+    import proxy.core.acceptor.acceptor as ACC
+    import proxy.core.work.delegate as DEL
+    import proxy.core.work.fd.remote as RM
+    from proxy.core.work.fd import RemoteFdExecutor
+    nw, idd, unix = case['nw'], case['idd'], case['unix']
+    logging.disable(logging.CRITICAL)
+    try:
+        flags = FlagParser.initialize(threadless=True, local_executor=0, num_workers=nw)
+        flags.unix_socket_path = '/tmp/verif-c17.sock' if unix else None
+        pipes = [MemPipe() for _ in range(nw)]
+        acc = Acceptor(idd=idd, fd_queue=mock.MagicMock(), flags=flags, lock=multiprocessing.Lock(),
+                       executor_queues=pipes, executor_pids=list(range(100, 100 + nw)),
+                       executor_locks=[multiprocessing.Lock() for _ in range(nw)])
+        class SyncThread:
+            def __init__(self, target=None, args=(), kwargs=None):
+                self.target, self.args, self.kwargs = target, args, kwargs or {}
+                self.ident = 1
+            def start(self):
+                self.target(*self.args, **self.kwargs)
+        def fake_send_handle(conn, handle, pid):
+            conn.q.append(('handle', handle))
+        status, served = 0, [[] for _ in range(nw)]
+        conns = []
+        with mock.patch.object(ACC.threading, 'Thread', SyncThread), mock.patch.object(DEL, 'send_handle', fake_send_handle):
+            try:
+                for addr, fd in case['conns']:
+                    c = _Conn(fd)
+                    conns.append(c)
+                    acc._work(c, None if addr is None else ('10.0.0.%d' % (addr % 250), addr))
+            except Exception as e:
+                status = 1000 + C.exn_code(e)
+        not_closed = [c.fd for c in conns if not c.closed]
+        if status == 0:
+            with mock.patch.object(RM, 'recv_handle', lambda conn: conn.recv_handle()):
+                for k, pipe in enumerate(pipes):
+                    ex = RemoteFdExecutor(iid=str(k), work_queue=pipe, flags=flags)
+                    got = served[k]
+                    ex.work = lambda fileno, addr, conn, got=got: got.append([fileno, None if addr is None else addr[1]])
+                    try:
+                        while pipe.q:
+                            ex.receive_from_work_queue()
+                    except Exception as e:
+                        status = 1000 + C.exn_code(e)
+                        break
+        return dict(status=status, served=served, not_closed=not_closed)
+    finally:
+        logging.disable(0)
+
+
+def gen_dispatch_grid(rng, quick):
+    cases = []
+    for unix in (False, True):
+        for nw in (1, 2, 3, 4):
+            for idd in range(0, 6):
+                if quick and (idd + nw) % 2 and not (idd >= nw):
+                    continue
+                n = rng.randrange(1, 7)
+                conns = [[(None if (unix and rng.random() < 0.5) else 4000 + rng.randrange(1000)), 20 + j] for j in range(n)]
+                cases.append(dict(kind='dispatch', unix=unix, nw=nw, idd=idd, conns=conns))
+    return cases
+
+
+def coq_dispatch(case, out):
+    conns = C.coq_list('(%s, %d%%Z)' % ('None' if a is None else '(Some %d)' % a, fd) for a, fd in case['conns'])
+    served = C.coq_list(C.coq_list('(%d%%Z, %s)' % (fd, 'None' if a is None else '(Some %d)' % a) for fd, a in w) for w in out['served'])
+    return 'C17D (CDispatch %s %d %d %s %d %s)' % (C.coq_bool(case['unix']), case['idd'], case['nw'], conns, out['status'], served)
+
+
+def dispatch_oracle(case, out):
+    if out['status'] != 0:
+        return 'dispatching to the remote workers raised (status %d): acceptor id %d, %d workers, unix listener %s' % (
+            out['status'], case['idd'], case['nw'], case['unix'])
+    if out['not_closed']:
+        return 'the acceptor kept descriptors %r after delegating them' % (out['not_closed'],)
+    got = sorted(fd for w in out['served'] for fd, _ in w)
+    if got != sorted(fd for _, fd in case['conns']):
+        return 'accepted connections %r, served by the workers %r' % (sorted(fd for _, fd in case['conns']), got)
+    # round robin: as evenly as possible
+    sizes = [len(w) for w in out['served']]
+    if max(sizes) - min(sizes) > 1:
+        return 'connections are not spread round-robin over the workers: %r' % (sizes,)
+    if not case['unix']:
+        want = {fd: a for a, fd in case['conns']}
+        for w in out['served']:
+            for fd, a in w:
+                if want[fd] != a:
+                    return 'connection %d reached its worker with peer address %r instead of %r' % (fd, a, want[fd])
+    return None
+
+
 _TFLAGS = None
 def threaded_flags():
     global _TFLAGS
@@ -465,14 +603,23 @@ def gen_multi(rng):
 def generate(rng, tier):
     quick = tier != 'thorough'
     cases = []
-    for _ in range(110 if quick else 3000):
+    for _ in range(70 if quick else 3000):
         cases.append(gen_tame(rng))
-    for _ in range(70 if quick else 2000):
+    for _ in range(40 if quick else 2000):
         cases.append(gen_wild(rng))
-    for _ in range(40 if quick else 1200):
+    for _ in range(30 if quick else 1200):
         cases.append(gen_multi(rng))
     for k in range(2 if quick else 6):
         cases.append(dict(kind='handoff', n=k))
+    cases += gen_dispatch_grid(rng, quick)
+    # a connection whose initialize() fails (e.g. TLS handshake): threaded and local executor shut it down at once; the
+    # remote executor must ALSO close the descriptor it received over the pipe (real ThreadlessFdExecutor.work + _cleanup)
+    for _ in range(2 if quick else 60):
+        for remote in (True, False):
+            for ending in ('init_raises', 'handle_true', 'shutdown_raises'):
+                c = TEN.ending_case(rng, ending, remote)
+                c['kind'] = 'ending'
+                cases.append(c)
     return cases
 
 
@@ -480,6 +627,10 @@ def generate(rng, tier):
 def run_impl(case):
     if case['kind'] == 'handoff':
         return TEN.run_handoff(case)
+    if case['kind'] == 'dispatch':
+        return run_dispatch(case)
+    if case['kind'] == 'ending':
+        return X.run_schedule(case)
     if case['kind'] == 'multi':
         joint = MultiDriver(case).run()
         threaded = {}
@@ -534,6 +685,10 @@ def coq_hobs(o):
 
 
 def coq_term(case, out):
+    if case['kind'] == 'dispatch':
+        return coq_dispatch(case, out)
+    if case['kind'] == 'ending':
+        return 'C17X (%s)' % X.coq_xcase(case, out, old=False)
     if case['kind'] == 'handoff':
         t = TEN.coq_handoff(case, out)
         return 'C17F (%s)' % t[len('C10F '):] if t.startswith('C10F ') else None
@@ -573,6 +728,10 @@ def is_tame(case):
 
 def oracle(case, out):
     if case['kind'] == 'handoff':
+        return TEN.oracle(case, out)
+    if case['kind'] == 'dispatch':
+        return dispatch_oracle(case, out)
+    if case['kind'] == 'ending':
         return TEN.oracle(case, out)
     if case['kind'] == 'multi':
         j = out['joint']
@@ -618,6 +777,10 @@ def compare_modes(t, l):
 def nontrivial(case, out):
     if case['kind'] == 'handoff':
         return True
+    if case['kind'] == 'dispatch':
+        return out['status'] == 0 and len(case['conns']) >= 2
+    if case['kind'] == 'ending':
+        return TEN.nontrivial(case, out)
     if case['kind'] == 'multi':
         gone = [v for v in out['joint']['per'].values() if not v['live']]
         return len(gone) >= 2
